@@ -16,6 +16,8 @@ open Pandora.C12
 #print axioms ambiguity_normalised_counterexample
 #print axioms ambiguity_max_counterexample
 #print axioms arange_wf
+#print axioms ambCount_neg
+#print axioms max_measure_fix_correct
 -- risk
 #print axioms card_le_span
 #print axioms pixelRisk_spec
